@@ -46,6 +46,7 @@ var selSwap = map[string][]string{
 
 func main() {
 	root := os.Args[1]
+	gen3 := len(os.Args) > 2 && os.Args[2] == "-gen3"
 	var edits []Edit
 	fset := token.NewFileSet()
 	filepath.Walk(root, func(p string, info os.FileInfo, err error) error {
@@ -95,6 +96,120 @@ func main() {
 			curFunc = fd.Name.Name
 			if fd.Recv != nil && len(fd.Recv.List) > 0 {
 				curFunc = strings.TrimPrefix(string(src[off(fd.Recv.List[0].Type.Pos()):off(fd.Recv.List[0].Type.End())]), "*") + "." + curFunc
+			}
+			if gen3 {
+				text := func(n ast.Node) string { return string(src[off(n.Pos()):off(n.End())]) }
+				// short string literals of this function, for literal swaps
+				var lits []string
+				seenLit := map[string]bool{}
+				ast.Inspect(fd.Body, func(n ast.Node) bool {
+					if bl, ok := n.(*ast.BasicLit); ok && bl.Kind == token.STRING && len(bl.Value) <= 8 && !seenLit[bl.Value] {
+						seenLit[bl.Value] = true
+						lits = append(lits, bl.Value)
+					}
+					return true
+				})
+				depth := 0
+				var walk func(n ast.Node) bool
+				walk = func(n ast.Node) bool {
+					switch x := n.(type) {
+					case *ast.SliceExpr:
+						if x.Low != nil {
+							add(x.Low.Pos(), x.Low.End(), text(x.Low)+"+1", "slice-low+1")
+							add(x.Low.Pos(), x.Low.End(), "", "slice-drop-low")
+						} else {
+							add(x.Lbrack+1, x.Lbrack+1, "1", "slice-low=1")
+						}
+						if x.High != nil {
+							add(x.High.Pos(), x.High.End(), text(x.High)+"-1", "slice-high-1")
+							add(x.High.Pos(), x.High.End(), text(x.High)+"+1", "slice-high+1")
+						}
+					case *ast.BasicLit:
+						if x.Kind == token.STRING && len(x.Value) <= 8 {
+							for _, l := range lits {
+								if l != x.Value {
+									add(x.Pos(), x.End(), l, "literal "+x.Value+"→"+l)
+								}
+							}
+						}
+					case *ast.CaseClause:
+						if len(x.List) > 0 {
+							add(x.Pos(), x.End(), "", "delete-case")
+							if len(x.List) > 1 {
+								for i, e := range x.List {
+									var rest []string
+									for j, e2 := range x.List {
+										if j != i {
+											rest = append(rest, text(e2))
+										}
+									}
+									_ = e
+									add(x.List[0].Pos(), x.List[len(x.List)-1].End(), strings.Join(rest, ", "), "drop-case-expr")
+								}
+							}
+						} else if len(x.Body) > 0 {
+							add(x.Body[0].Pos(), x.Body[len(x.Body)-1].End(), "", "empty-default")
+						}
+					case *ast.DeferStmt:
+						add(x.Pos(), x.Call.Pos(), "", "defer→immediate")
+					case *ast.AssignStmt:
+						if x.Tok == token.ASSIGN && depth > 1 {
+							allIdent := true
+							for _, l := range x.Lhs {
+								if _, ok := l.(*ast.Ident); !ok {
+									allIdent = false
+								}
+							}
+							if allIdent {
+								add(x.TokPos, x.TokPos+1, ":=", "assign→define")
+							}
+						}
+					case *ast.CompositeLit:
+						for i, e := range x.Elts {
+							if kv, ok := e.(*ast.KeyValueExpr); ok {
+								if _, isId := kv.Key.(*ast.Ident); isId {
+									end := kv.End()
+									if i+1 < len(x.Elts) {
+										end = x.Elts[i+1].Pos()
+									}
+									add(kv.Pos(), end, "", "delete-field "+text(kv.Key))
+								}
+							}
+						}
+					case *ast.IfStmt:
+						if x.Else != nil {
+							add(x.Body.End(), x.Else.End(), "", "delete-else")
+						}
+					case *ast.ReturnStmt:
+						if len(x.Results) == 1 {
+							switch text(x.Results[0]) {
+							case "nil":
+								add(x.Results[0].Pos(), x.Results[0].End(), "filepath.SkipDir", "return nil→SkipDir")
+							case "filepath.SkipDir":
+								add(x.Results[0].Pos(), x.Results[0].End(), "nil", "return SkipDir→nil")
+							case "true":
+								add(x.Results[0].Pos(), x.Results[0].End(), "false", "return true→false")
+							case "false":
+								add(x.Results[0].Pos(), x.Results[0].End(), "true", "return false→true")
+							}
+						}
+					case *ast.RangeStmt:
+						// iterate over all but the first / last element
+						if x.Tok == token.DEFINE {
+							add(x.X.Pos(), x.X.End(), text(x.X)+"[1:]", "range-skip-first")
+						}
+					case *ast.BlockStmt:
+						depth++
+						for _, st := range x.List {
+							ast.Inspect(st, walk)
+						}
+						depth--
+						return false
+					}
+					return true
+				}
+				ast.Inspect(fd.Body, walk)
+				continue
 			}
 			ast.Inspect(fd.Body, func(n ast.Node) bool {
 				switch x := n.(type) {
@@ -193,6 +308,9 @@ func main() {
 	})
 	for i := range edits {
 		edits[i].ID = i
+		if gen3 {
+			edits[i].ID = 200000 + i
+		}
 	}
 	enc := json.NewEncoder(os.Stdout)
 	enc.Encode(edits)
